@@ -187,7 +187,12 @@ void verif_trace_dump(void)
 {
 	if(!dump_path)
 		return;
-	FILE *f = fopen(dump_path, "w");
+	char path[4096];
+	if(n_nodes > 1)
+		snprintf(path, sizeof(path), "%s.rank%d", dump_path, (int)nid);
+	else
+		snprintf(path, sizeof(path), "%s", dump_path);
+	FILE *f = fopen(path, "w");
 	if(!f)
 		return;
 	pthread_mutex_lock(&reg_lock);
